@@ -29,7 +29,13 @@ def run():
             g = HistGen(rng, 'C04')
             ab = Abs([])
             d = os.path.join(base, 'h%d' % h)
-            lines.append('NEW %s -' % d)
+            if h % 4 == 3:
+                # the first open finds an event.map that already exists, zero-filled and several chunks long (pre-sized, or left by an
+                # interrupted creation): the store starts in it, and the first growth comes only when that room is used up
+                lines.append('PRE %s %d' % (d, rng.choice([4096, 6144, 10240, 2048 * 3 + 8, 5000])))
+                lines.append('OPN %s -' % d)
+            else:
+                lines.append('NEW %s -' % d)
             offs = {}
             for k in range(rng.randrange(4, 14 if Q else 40)):
                 # mostly plain notes of growing sizes; also versions of one replaceable address, deletion requests for
